@@ -156,7 +156,7 @@ def tree(draw, P, max_files=8, modes=None, single=None, min_files=1, cli_safe=Fa
         raw.append(list(draw(st.sampled_from(TRAP_PATHS))))
     if draw(st.sampled_from([True] + [False] * 5)):
         # a component that contains the root's own name (prefix stripping by string replacement goes wrong on these)
-        echo = draw(st.sampled_from(["meta" + name, name + "2", name]))
+        echo = draw(st.sampled_from(["meta" + name, name + "2", name, "Vol."]))
         raw.append([echo, draw(one)] if draw(st.booleans()) else [draw(one), echo])
     paths = _fix_paths(raw)
     files = []
